@@ -33,7 +33,9 @@ META = {
     'functions': [('midi_io', 'midi_to_note_sequence')],
     'assumptions': [
         'contract K for PrettyMIDI(<bytes>): raises any exception object OR '
-        'returns an object with resolution in [1,32767]; time signatures with '
+        'returns an object with resolution in [-32768,32767] minus 0 (negative '
+        '= SMPTE division: then later tempo-change times are <= 0); time '
+        'signatures with '
         'numerator in [1,255], denominator 2^k (k in [0,255]), time >= 0; '
         'key_number in [0,23]; equal-length tempo arrays with qpm > 0 and '
         'times >= 0; instruments with program in [0,127], notes with pitch and '
@@ -121,6 +123,12 @@ def _install(c, mio, plan):
   return restore
 
 
+def _data(c):
+  """The byte string in one of the standard containers of bytes."""
+  raw = b'MThd-not-really'
+  return c.choice('container', [raw, bytearray(raw), memoryview(raw)])
+
+
 def h_raises(c):
   mio = c.mod('midi_io')
   exc = _EXCS[c.params['exc']]
@@ -131,7 +139,7 @@ def h_raises(c):
   restore = _install(c, mio, plan)
   try:
     try:
-      res, err = mio.midi_to_note_sequence(b'MThd-not-really'), None
+      res, err = mio.midi_to_note_sequence(_data(c)), None
     except BaseException as e:  # pylint: disable=broad-except
       if type(e).__module__.startswith('engine'):
         raise
@@ -147,7 +155,10 @@ def h_object(c):
   pmod = c.pm
   I = c.params['I']
   vals = {}
-  vals['res'] = c.int('res', 1, 32767)
+  # the header's division is a signed 16-bit field: negative for SMPTE timing
+  # (zero makes the parser fail with ZeroDivisionError, i.e. it raises)
+  vals['res'] = c.int('res', -32768, 32767)
+  c.assume(c.Not(c.eq(vals['res'], 0)))
   vals['ts_n'] = c.int('ts_n', 1, 255)
   if c.params.get('full_k'):
     vals['ts_k'] = c.concretize(c.int('ts_k', 0, 255))
@@ -160,7 +171,11 @@ def h_object(c):
     vals['key'] = c.choice('key', [0, 11, 12, 23])
   vals['key_t'] = c.real('key_t', 0)
   tempo_ticks = [c.int('tp%d_tick' % i, 0, 10**10 - 1) for i in range(2)]
-  tempo_t = [c.real('tp%d_t' % i, 0) for i in range(2)]
+  # tempo-change times are tick * 60 / (qpm * resolution): the first is 0, a
+  # later one is negative exactly when the resolution is (times of notes and
+  # other events are checked >= 0 by the parser itself)
+  tempo_t = [0, c.real('tp1_t')]
+  c.assume(c.If(vals['res'] > 0, tempo_t[1] >= 0, tempo_t[1] <= 0))
   tempo_q = [c.real('tp%d_q' % i) for i in range(2)]
   for q in tempo_q:
     c.assume(q > 0)
@@ -222,7 +237,7 @@ def h_object(c):
   restore = _install(c, mio, plan)
   try:
     try:
-      res, err = mio.midi_to_note_sequence(b'MThd-not-really'), None
+      res, err = mio.midi_to_note_sequence(_data(c)), None
     except BaseException as e:  # pylint: disable=broad-except
       if type(e).__module__.startswith('engine'):
         raise
@@ -230,11 +245,14 @@ def h_object(c):
   finally:
     restore()
   too_big = 2**vals['ts_k'] > 2**31 - 1
+  smpte = c.concretize(vals['res'] < 0)
   if err is not None:
     c.check(isinstance(err, mio.MIDIConversionError),
             'only MIDIConversionError escapes')
-    c.check(too_big, 'raised although every field fits the NoteSequence')
-    c.cover('denominator beyond int32 rejected')
+    c.check(too_big or smpte, 'raised although every field fits the '
+                              'NoteSequence and the division is metrical')
+    c.cover('denominator beyond int32 rejected', too_big)
+    c.cover('SMPTE division rejected', smpte)
     return
   c.check(not too_big, 'a denominator beyond int32 was accepted')
   conds = []
